@@ -99,6 +99,15 @@ func (p c13) Run(c *core.Ctx) {
 		fa = &world.FactoryAware{Nm: []string{"a-factory-aware", "z-factory-aware"}[c.Rng.Intn(2)]}
 		extra = append(extra, fa)
 	}
+	// stateless zero-size runners: distinct components even when their addresses coincide
+	var zeroRunners []string
+	if c.Rng.Intn(4) == 0 {
+		all := []any{&world.ZRunnerA{}, &world.ZRunnerB{}, &world.ZRunnerC{}}
+		names := []string{"zero-runner-a", "zero-runner-b", "zero-runner-c"}
+		k := 2 + c.Rng.Intn(2)
+		extra = append(extra, all[:k]...)
+		zeroRunners = names[:k]
+	}
 	var failing []int
 	if nr > 0 && creationFault < 0 && c.Rng.Intn(2) == 0 {
 		for x := 0; x < 1+c.Rng.Intn(2); x++ {
@@ -110,7 +119,9 @@ func (p c13) Run(c *core.Ctx) {
 		}
 	}
 	g.ShuffleOrders()
-	r := world.Start(sc, world.Options{Extra: extra})
+	r := world.Build(sc, world.Options{Extra: extra})
+	world.SetZeroLog(r.Log)
+	r.Go()
 	c.Count("starts", 1)
 	c.Count("outcome_"+r.Outcome(), 1)
 	if abnormal(r.Outcome()) {
@@ -119,13 +130,21 @@ func (p c13) Run(c *core.Ctx) {
 	}
 	ev := r.Log.Events()
 	var seq []part
+	zeroRan := map[string]int{}
 	ran := map[int]int{}
 	firstRun := -1
 	lastLifecycle := -1
 	for _, e := range ev {
 		switch e.Kind {
 		case "run":
-			i, _ := nodeNamed(sc, e.Who)
+			i, isNode := nodeNamed(sc, e.Who)
+			if !isNode {
+				zeroRan[e.Who]++ // a zero-size runner (unordered class)
+				if firstRun < 0 {
+					firstRun = e.Seq
+				}
+				continue
+			}
 			seq = append(seq, runnerPart(sc, i))
 			ran[i]++
 			if firstRun < 0 {
@@ -194,6 +213,13 @@ func (p c13) Run(c *core.Ctx) {
 				return
 			}
 		}
+		for _, zn := range zeroRunners {
+			if zeroRan[zn] != 1 {
+				fail(fmt.Sprintf("zero-size runner %s has %d run events in a successful start", zn, zeroRan[zn]))
+				return
+			}
+		}
+		c.Count("zero_size_runners_checked", len(zeroRunners))
 	} else {
 		if r.Outcome() != "error" {
 			fail("a runner returned an error but App.Run returned nil")
